@@ -12,7 +12,7 @@ CONSTANT Bits = {8, 16}
 CONSTANT Flips = {FALSE, TRUE}
 CONSTANT Accs = {"U55_128", "U65_512"}
 CONSTANT ClearOnCompile = FALSE
-CONSTANT ExtendedKey = FALSE
-CONSTANT Assume = TRUE
+CONSTANT ExtendedKey = TRUE
+CONSTANT Assume = FALSE
 INVARIANT Coherent
 CHECK_DEADLOCK FALSE
